@@ -177,12 +177,17 @@ def coll_unit():
         Inst(f'{C}.filter_contained_by', 'filterContainedBy', [('self', 'GV.Coll'), ('shape', 'Query')], 'Except GV.Coll'),
         Inst(f'{C}.filter_contains', 'filterContains', [('self', 'GV.Coll'), ('shape', 'Query')], 'Except GV.Coll'),
         Inst(f'{C}.intersects', 'intersects', [('self', 'GV.Coll'), ('shape', 'Query')], 'Except Bool'),
+        Inst(f'{C}.filter_by_property', 'filterByProperty',
+             [('self', 'GV.Coll'), ('property', 'Str'), ('func', 'Fn PVal Bool')], 'Except GV.Coll'),
         Inst(f'{C}.__bool__', 'bool', [('self', 'GV.Coll')], 'Bool'),
         Inst('FeatureCollection.__add__', 'fcAddFc', [('self', 'GV.Coll'), ('other', 'FCA')], 'Except GV.Coll'),
         Inst('FeatureCollection.__add__', 'fcAddTrack', [('self', 'GV.Coll'), ('other', 'TrackA')], 'Except GV.Coll'),
         Inst('Track.__add__', 'trackAddTrack', [('self', 'GV.Coll'), ('other', 'TrackA')], 'Except GV.Coll'),
         Inst('Track.__add__', 'trackAddFc', [('self', 'GV.Coll'), ('other', 'FCA')], 'Except GV.Coll'),
     ]
+    py2lean.LEAN_TYPE.setdefault('Str', 'String')
+    py2lean.LEAN_TYPE.setdefault('PVal', 'GV.Coll.PVal')
+    py2lean.LEAN_TYPE.setdefault('Props', 'List (String × GV.Coll.PVal)')
     py2lean.LEAN_TYPE.setdefault('FCA', 'GV.Coll')
     py2lean.LEAN_TYPE.setdefault('TrackA', 'GV.Coll')
 
@@ -227,9 +232,12 @@ def coll_unit():
                 attr_types={('GV.Coll', 'geoshapes'): ('{}.shapes', 'List GV.Coll.Shape'),
                             ('FCA', 'geoshapes'): ('{}.shapes', 'List GV.Coll.Shape'),
                             ('TrackA', 'geoshapes'): ('{}.shapes', 'List GV.Coll.Shape'),
+                            ('GV.Coll.Shape', 'properties'): ('{}.properties', 'Props'),
                             ('GV.Coll.Shape', 'dt'): ('{}.dt', 'Opt TI'), ('Query', 'dt'): ('qdt', 'Opt TI')},
                 intrinsics={'default_to_zulu': zulu, 'FeatureCollection': fc_ctor, 'Track': track_ctor},
-                hooks={'isinstance': isinstance_hook, 'type_ctor': type_ctor, 'always_truthy': ('TI', 'Dt')},
+                hooks={'isinstance': isinstance_hook, 'type_ctor': type_ctor, 'always_truthy': ('TI', 'Dt'),
+                       'local_type': lambda qual, name: {('CollectionBase.filter_by_property', 'filtered_shapes'):
+                                                         'List GV.Coll.Shape'}.get((qual, name))},
                 ctx_params=[('qdt', 'Option GV.TI'), ('xi', 'GV.Coll.Shape → Bool'), ('xc', 'GV.Coll.Shape → Bool'),
                             ('qc', 'GV.Coll.Shape → Bool')],
                 externals=_time_externals(), abstract=abstract)
